@@ -101,6 +101,9 @@ func (c c05Cfg) large() bool    { return c.Max >= 1<<20 || c.Max < 0 }
 type c05Scenario struct {
 	Cfg c05Cfg   `json:"cfg"`
 	Ops []string `json:"ops"`
+	// preemption family (disk): fixed script Pre, preemption plan Plan ("<file:line>#<k>")
+	Pre  string   `json:"pre,omitempty"`
+	Plan []string `json:"plan,omitempty"`
 }
 
 func c05Byte(hist int, kind int, idx int64) byte {
@@ -383,6 +386,7 @@ func (e *c05Env) awaitExit(r *c05Reader) {
 func (e *c05Env) spinUntil(cond func() bool) {
 	var queue []uint64
 	sweeps := 0
+	var stuckSince int64
 	for round := 1; ; round++ {
 		if cond() {
 			return
@@ -404,6 +408,18 @@ func (e *c05Env) spinUntil(cond func() bool) {
 		}
 		// quiescent, cond false: let the next poller's period elapse
 		if len(queue) == 0 {
+			if sweeps >= c05Sweeps && len(mtx) > 0 {
+				// a real dead-lock persists; a goroutine caught for an instant in front of a lock
+				// does not: require the same picture again after 100 ms of real time (pacing,
+				// not an oracle: the verdict is the blocked-goroutine picture)
+				if stuckSince == 0 {
+					stuckSince = wallNow()
+				}
+				if wallNow()-stuckSince < 100000 {
+					<-c05Pulse
+					continue
+				}
+			}
 			if sweeps >= c05Sweeps {
 				if len(mtx) == 0 && !e.graced {
 					// diagnostic grace: does cond become true by itself a little later?
@@ -1886,6 +1902,8 @@ type c05Outcome struct {
 	risky   map[string]string // enabled ops that reset the cache while a snapshot reader/writer is registered ("rdb") or two segment readers poll ("poll")
 	wedged  bool
 	hung    bool
+	seen    []string // preemption family: points reached / planned points reached
+	hit     []string
 }
 
 func c05Exec(t *testing.T, scn c05Scenario, tier string) c05Outcome {
@@ -1916,6 +1934,14 @@ func c05Exec(t *testing.T, scn c05Scenario, tier string) c05Outcome {
 			e.ch = e.newChannel()
 			e.opSetRunID(e.newID())
 			e.checkView()
+			if scn.Pre != "" {
+				ctl := installPreempt(scn.Plan)
+				e.runPre(scn.Pre, ctl)
+				ctl.mu.Lock()
+				out.seen, out.hit = append([]string(nil), ctl.seen...), append([]string(nil), ctl.hit...)
+				ctl.mu.Unlock()
+				ctl.remove()
+			}
 			for _, op := range scn.Ops {
 				if e.viol != nil {
 					break
@@ -1954,6 +1980,129 @@ func c05Exec(t *testing.T, scn c05Scenario, tier string) c05Outcome {
 		buf = buf[:runtime.Stack(buf, true)]
 		fmt.Fprintf(os.Stderr, "c05: execution %v %v gave no verdict within 60 s of wall time; goroutines:\n%s\n", scn.Cfg, scn.Ops, buf)
 		return c05Outcome{hung: true, res: mc.Result{Verdict: "machinery", Clause: "execution gave no verdict within 60 s of wall time (harness hang)"}}
+	}
+}
+
+// ---------------------------------------------------------------------------
+// Preemption family (disk back end). pkg/store/aof_writer.go and aof_reader.go are built with
+// the `yield` / `yield-calls` transforms: inside one append the writer goroutine can be held
+// at any instrumented statement (after write, header rewrite, os.OpenFile of the next segment,
+// its header write, Sync, Observer.Open ...). While it is held, one poll period elapses for
+// the caught-up reader (its 10 ms timer fires inside the writer's step); then the writer goes
+// on. After the append the script continues with a reset or with a burst of appends and a
+// collector pass during which the reader's timer does not fire, and the usual oracles judge.
+
+var c05PreScripts = []string{"reset-rdb", "reset-del", "reset-sidN", "gc", "replace"}
+
+// settleHeld: quiescence; while a goroutine is held at a planned point let every parked
+// poller poll once, then release the oldest held goroutine; repeat.
+func (e *c05Env) settleHeld(ctl *preemptCtl) {
+	for {
+		synctest.Wait()
+		ctl.mu.Lock()
+		n := len(ctl.parked)
+		ctl.mu.Unlock()
+		if n == 0 {
+			return
+		}
+		e.tickSeq()
+		ctl.mu.Lock()
+		var c chan struct{}
+		if len(ctl.parked) > 0 {
+			c = ctl.parked[0]
+			ctl.parked = ctl.parked[1:]
+		}
+		ctl.mu.Unlock()
+		if c != nil {
+			close(c)
+		}
+	}
+}
+
+// feedQuiet hands n bytes to the live segment writer without letting a poll period elapse.
+func (e *c05Env) feedQuiet(n int64) {
+	e.w.g.Release(c05Bytes(e.hist, 0, e.right, n))
+	e.right += n
+	e.events++
+	synctest.Wait()
+}
+
+func (e *c05Env) runPre(script string, ctl *preemptCtl) {
+	e.logf("preemption script %s", script)
+	e.lastOp = "pre-" + script
+	e.opAof()
+	if e.viol != nil {
+		return
+	}
+	if script == "gc" || script == "replace" {
+		e.feed(3) // the reader sits in a non-empty live segment
+	}
+	_, right := e.ch.GetOffsetRange(e.runID)
+	r := e.openAt(right, false, "OR")
+	if r == nil {
+		if e.viol == nil {
+			e.fail("cannot open a reader at the right edge", "op-error", nil)
+		}
+		return
+	}
+	e.readers[0] = r
+	e.startReader(r)
+	e.settle() // caught up: parked in its poll loop at EOF of the live segment
+	// the append that rotates, explored with preemptions
+	ctl.mu.Lock()
+	ctl.armed = true
+	ctl.mu.Unlock()
+	e.w.g.Release(c05Bytes(e.hist, 0, e.right, e.cfg.L+1))
+	e.right += e.cfg.L + 1
+	e.events++
+	e.settleHeld(ctl)
+	ctl.mu.Lock()
+	ctl.armed = false
+	ctl.mu.Unlock()
+	if script != "gc" {
+		// one more byte reaches the new segment before the reader's next poll, so that the
+		// reader's position is inside that segment (not at its first byte) from then on
+		e.feedQuiet(1)
+	}
+	switch script {
+	case "gc":
+		// a burst of appends and a collector pass before the reader's next poll
+		for i := 0; i < 3; i++ {
+			e.feedQuiet(e.cfg.L + 1)
+		}
+		e.ch.(*StoreChannel).storer.VerifGC()
+		e.events++
+		e.settle()
+		e.checkReaders()
+		e.checkView()
+		e.expectCaughtUp("after burst + collector pass")
+	case "replace":
+		e.settle()
+		e.checkReaders()
+		e.expectCaughtUp("after the rotation")
+		e.apply("aof")
+		e.apply("fc")
+	default:
+		e.settle()
+		e.checkReaders()
+		e.expectCaughtUp("after the rotation")
+		switch script {
+		case "reset-rdb":
+			e.apply("rdbF")
+		case "reset-del":
+			e.apply("del")
+			if e.viol == nil {
+				e.apply("sidS")
+			}
+		case "reset-sidN":
+			e.apply("sidN")
+		}
+		if e.viol == nil {
+			e.apply("aofD") // the log written after the reset re-uses the file names
+		}
+		if e.viol == nil {
+			e.apply("fc")
+		}
 	}
 }
 
@@ -2014,6 +2163,45 @@ func runC05(t *testing.T, rep *mc.Reporter) {
 		o := c05Exec(t, scn, tier)
 		rep.Exec(scn, nil, o.res)
 		return
+	}
+
+	// preemption family
+	pbound := 1
+	if tier == "thorough" {
+		pbound = 2
+	}
+	pidx := 0
+	for _, script := range c05PreScripts {
+		for _, crc := range []bool{false, true} {
+			if crc && tier != "thorough" && script != "reset-rdb" {
+				continue
+			}
+			pidx++
+			if pidx%nshards != shard || budget.Expired() {
+				continue
+			}
+			max := int64(1 << 20)
+			if script == "gc" {
+				max = 10
+			}
+			base := c05Scenario{Cfg: c05Cfg{Backend: "disk", L: 8, Max: max, Crc: crc}, Pre: script}
+			rep.Scenario()
+			explorePreempt(rep, budget, pbound, func(plan []string, res mc.Result) {
+				s := base
+				s.Plan = plan
+				rep.Exec(s, nil, res)
+				rep.Count("preemption_executions", 1)
+			}, func(plan []string) (mc.Result, []string, []string) {
+				s := base
+				s.Plan = plan
+				o := c05Exec(t, s, tier)
+				for retry := 0; o.hung && retry < 2; retry++ {
+					rep.Count("retried_hung_executions", 1)
+					o = c05Exec(t, s, tier)
+				}
+				return o.res, o.seen, o.hit
+			})
+		}
 	}
 
 	depth := 4
